@@ -28,6 +28,8 @@ Definition typ_eqb (a b : otype) : bool :=
   match a, b with Market, Market | Limit, Limit | Stop, Stop => true | _, _ => false end.
 
 Inductive result := Accepted | Rejected | Done.
+(* the history did not end in a rejected submission *)
+Definition ok_end (rs : list result) : bool := match rev rs with Rejected :: _ => false | _ => true end.
 
 (* Order(...) : the constructor calls exchange.on_order_submission; a raise ends the sequence *)
 Definition submit (s : spot) (o : order) : spot * result :=
